@@ -292,10 +292,34 @@ fn gen_hist(s: &mut Src, ctx: &mut Ctx, fl: &mut GenFlags) -> Case {
     // two draws, the larger counts: long histories are the interesting ones, 0 stays the simplest
     let n = s.below(11).max(s.below(11));
     let mut g = GenState::default();
-    let ops = (0..n).map(|_| gen_op(s, arb, f2, true, &mut g, fl)).collect();
+    let mut ops: Vec<Op> = (0..n).map(|_| gen_op(s, arb, f2, true, &mut g, fl)).collect();
+    let mut default_ttl = default_ttl;
+    // Wide scale, drawn after everything else (byte-encoded cases written before this existed decode as before): one
+    // case in four multiplies every TTL and every clock advance by K (a second, 1001 ms, a minute, an hour, a prime
+    // near 10^6) and then moves each advance by -1, 0 or +1 ms, so that checkpoints and restores fall on, just before
+    // and just after the expiry instants of TTLs far from the 0..5 ms of the small domain.
+    if s.chance(1, 4) {
+        let k = s.pick(&[1000u64, 1001, 60_000, 3_600_000, 999_983]);
+        for op in ops.iter_mut() {
+            match op {
+                Op::PutTtl(_, _, t) => *t *= k,
+                Op::Advance(a) => {
+                    let j = s.below(3) as u64;
+                    *a = (*a * k + j).saturating_sub(1);
+                }
+                _ => {}
+            }
+        }
+        default_ttl = default_ttl.map(|t| t * k);
+        wide_scale_label(ctx);
+    }
     let mut case = Case { keys, max_cp, default_ttl, arb_floats: arb, ops };
     finish_gen(&mut case, fl, ctx);
     case
+}
+
+fn wide_scale_label(ctx: &mut Ctx) {
+    ctx.label("wide-scale-ttl-and-clock");
 }
 
 fn gen_crash(s: &mut Src, ctx: &mut Ctx, fl: &mut GenFlags) -> Case {
